@@ -246,3 +246,34 @@ package arraylist
 //@     invariant len(Seq(newList)) == min(iterator.index + 1, len(Seq(list)))
 //@     invariant forall j :: 0 <= j && j < len(Seq(newList)) ==> Seq(newList)[j] == f(j, Seq(list)[j])
 //@     decreases len(Seq(list)) - iterator.index
+
+// ---- JSON (C11 round trip, C12 replace / sound / atomic) ----
+
+//@ func List.ToJSON
+//@   requires Inv(list)
+//@   modifies nothing
+//@   ensures [C11 C17 C18] result1 == nil && fresh(arr(result0)) && jarr_kind(result0, elemof(list.elements)) == 3 && jarr_len(result0, elemof(list.elements)) == len(Seq(list))
+//@     && (forall i :: 0 <= i && i < len(Seq(list)) ==> jarr_at(result0, i, elemof(list.elements)) == Seq(list)[i])
+
+//@ func List.MarshalJSON
+//@   requires Inv(list)
+//@   modifies nothing
+//@   ensures [C11 C17 C18] result1 == nil && fresh(arr(result0)) && jarr_kind(result0, elemof(list.elements)) == 3 && jarr_len(result0, elemof(list.elements)) == len(Seq(list))
+//@     && (forall i :: 0 <= i && i < len(Seq(list)) ==> jarr_at(result0, i, elemof(list.elements)) == Seq(list)[i])
+
+//@ func List.FromJSON
+//@   requires Inv(list)
+//@   modifies list.elements, elems(list.elements)
+//@   ensures [C12 C17] Inv(list) && (result == nil <==> jarr_kind(data, elemof(list.elements)) >= 2)
+//@   ensures [C12] atomic: result != nil ==> Seq(list) == old(Seq(list))
+//@   ensures [C11 C12] loaded: jarr_kind(data, elemof(list.elements)) == 3 ==> len(Seq(list)) == jarr_len(data, elemof(list.elements)) && (forall i :: 0 <= i && i < len(Seq(list)) ==> Seq(list)[i] == jarr_at(data, i, elemof(list.elements)))
+//@   ensures [C16] Owned(list)
+//@   ensures [C12] null: jarr_kind(data, elemof(list.elements)) == 2 ==> len(Seq(list)) == 0
+
+//@ func List.UnmarshalJSON
+//@   requires Inv(list)
+//@   modifies list.elements, elems(list.elements)
+//@   ensures [C12 C17] Inv(list) && (result == nil <==> jarr_kind(bytes, elemof(list.elements)) >= 2)
+//@   ensures [C12] atomic: result != nil ==> Seq(list) == old(Seq(list))
+//@   ensures [C11 C12] loaded: jarr_kind(bytes, elemof(list.elements)) == 3 ==> len(Seq(list)) == jarr_len(bytes, elemof(list.elements)) && (forall i :: 0 <= i && i < len(Seq(list)) ==> Seq(list)[i] == jarr_at(bytes, i, elemof(list.elements)))
+//@   ensures [C12] null: jarr_kind(bytes, elemof(list.elements)) == 2 ==> len(Seq(list)) == 0
